@@ -454,8 +454,8 @@ func runC03(c *Ctx) {
 		recv.MaybeNil = false
 		pay := in.InputSlice("B", false)
 		h := absint.NewHeap()
-		h.AddFact(recv.Len.AddC(-hdr))                  // the receiver is an encoded header (EncodeIP4/IP6/UDP return exactly the header)
-		h.AddFact(absint.Const(1514).Sub(recv.Cap))      // the property quantifies over buffers of at most EthMaxSize
+		h.AddFact(recv.Len.AddC(-hdr))              // the receiver is an encoded header (EncodeIP4/IP6/UDP return exactly the header)
+		h.AddFact(absint.Const(1514).Sub(recv.Cap)) // the property quantifies over buffers of at most EthMaxSize
 		if m.typ == "IP4" {
 			h.SetKnown(recv, 0, absint.Const(0x45)) // written by EncodeIP4
 		}
